@@ -128,6 +128,34 @@ ImplStabilizerState(ops, n) ==
     LET t == ProjectAll(MixedRows(n), n, ops, Len(ops)) IN
     [rows |-> [j \in 1..2 * n |-> IF j > t.r /\ j <= n THEN [s |-> t.rows[j].s, k |-> ops[j - t.r].k] ELSE t.rows[j]], r |-> t.r]
 
+\* stabilizer_entropy(gs[r:N], mask): "pure" branch (no standby rows): half the GF(2) rank of the anticommutation matrix
+\* of the region-restricted crossing stabilizers; "mixed" branch: |A| minus the number of independent stabilizers
+\* supported inside A (= L - rank of the restriction to the complement).  The rank is the transcribed z2rank.
+LOCAL Z2I == INSTANCE Z2
+XB(l) == IF l \in {1, 2} THEN 1 ELSE 0
+ZB(l) == IF l \in {2, 3} THEN 1 ELSE 0
+RECURSIVE SeqOfSet(_)
+SeqOfSet(T) == IF T = {} THEN <<>> ELSE LET m == CHOOSE x \in T : \A y \in T : x <= y IN <<m>> \o SeqOfSet(T \ {m})
+\* bits of a string restricted to the (sorted) qubits qs: x1 z1 x2 z2 ...
+RestrictBits(P, qs) == [j \in 1..2 * Len(qs) |-> IF j % 2 = 1 THEN XB(P.s[qs[(j + 1) \div 2]]) ELSE ZB(P.s[qs[j \div 2]])]
+AntiBits(a, b) == LET n2 == Len(a) \div 2 IN
+    (Cardinality({q \in 1..n2 : (a[2 * q - 1] * b[2 * q] + a[2 * q] * b[2 * q - 1]) % 2 = 1})) % 2
+ImplEntropy(rows, r, A) ==
+    LET n == TabN(rows)
+        stab == [j \in 1..n - r |-> rows[r + j]]
+        qin == SeqOfSet(A)  qout == SeqOfSet((1..n) \ A)
+        L == n - r
+        inside(j) == \E q \in A : stab[j].s[q] # 0
+        outside(j) == \E q \in (1..n) \ A : stab[j].s[q] # 0
+        acr == SeqOfSet({j \in 1..L : inside(j) /\ outside(j)})
+    IN IF A = {} THEN 0                                   \* StabilizerState.entropy: empty subsystem
+       ELSE IF L = n
+       THEN LET sub == [a \in 1..Len(acr) |-> RestrictBits(stab[acr[a]], qin)]
+                M == [a \in 1..Len(acr) |-> [b \in 1..Len(acr) |-> AntiBits(sub[a], sub[b])]]
+            IN Z2I!Z2RankImpl(M) \div 2
+       ELSE LET comp == [j \in 1..L |-> RestrictBits(stab[j], qout)]
+            IN Cardinality(A) - (L - (IF L = 0 \/ Len(qout) = 0 THEN 0 ELSE Z2I!Z2RankImpl(comp)))
+
 \* rotations and maps act row by row
 ImplRotate(rows, G) == [j \in 1..Len(rows) |-> Rot(G, rows[j])]
 =============================================================================
